@@ -3,6 +3,8 @@
 import json, glob, os
 rows = []
 for d in sorted(glob.glob(os.path.join(os.path.dirname(__file__), "..", "seeded", "*"))):
+    if not os.path.isdir(d):
+        continue
     m = json.load(open(os.path.join(d, "meta.json")))
     name = os.path.basename(d)
     caught = m.get("caught_by", {})
